@@ -645,6 +645,55 @@ def w_crc(case: dict, t: Tally) -> None:
     t.illegal("from_crc_algorithm", {"what": "unknown-name"}, call(from_crc_algorithm, "crc64"), "from_crc_algorithm('crc64')")
 
 
+#: catalogue parameters of further CRCs that share polynomial and bit order with a named one but differ in init / xor-out
+CRC_CUSTOM = {
+    "crc32-bzip2": dict(width=32, poly=0x04C11DB7, init=0xFFFFFFFF, refin=False, refout=False, xorout=0xFFFFFFFF),
+    "crc32-jamcrc": dict(width=32, poly=0x04C11DB7, init=0xFFFFFFFF, refin=True, refout=True, xorout=0),
+    "crc16-genibus": dict(width=16, poly=0x1021, init=0xFFFF, refin=False, refout=False, xorout=0xFFFF),
+    "crc16-ccitt-false": dict(width=16, poly=0x1021, init=0xFFFF, refin=False, refout=False, xorout=0),
+    "crc16-kermit": dict(width=16, poly=0x1021, init=0, refin=True, refout=True, xorout=0),
+}
+
+
+def w_crc_history(case: dict, t: Tally) -> None:
+    """Histories of CRC computations in ONE process: every sequence (up to the depth) over the three named algorithms
+    and five user-defined configurations; each result must equal the bit-by-bit reference whatever was computed
+    before (a cache shared between Crc objects would make an earlier configuration leak into a later one)."""
+    import itertools
+
+    from spsdk.crypto.crc import Crc, CrcConfig, from_crc_algorithm
+    from vf.ref import crc as C
+
+    msgs = [b"123456789", b"", P("seeded", 17, case["seed"], "crch")]
+    names = ["crc32", "crc32-mpeg", "crc16-xmodem"] + sorted(CRC_CUSTOM)
+
+    def compute(name: str, m: bytes):
+        if name in C.CATALOGUE:
+            return from_crc_algorithm(name).calculate(m)
+        p = CRC_CUSTOM[name]
+        # crcmod convention used by CrcConfig: polynomial with its top bit, initial value taken before the final xor
+        cfg = CrcConfig(polynomial=p["poly"] | (1 << p["width"]), initial_value=p["init"] ^ p["xorout"], final_xor=p["xorout"],
+                        reverse=p["refin"])
+        return Crc(cfg).calculate(m)
+
+    def ref(name: str, m: bytes) -> int:
+        if name in C.CATALOGUE:
+            return C.by_label(name, m)
+        return C.crc(m, **CRC_CUSTOM[name])
+
+    for depth in range(1, case["depth"] + 1):
+        for seq in itertools.product(names, repeat=depth):
+            for m in msgs:
+                for i, name in enumerate(seq):
+                    last = i == len(seq) - 1
+                    r = call(compute, name, m)
+                    if last or r != ("ok", ref(name, m)):
+                        kind = "named" if name in C.CATALOGUE else "custom"
+                        prev = "first" if i == 0 else ("after-" + ("named" if seq[i - 1] in C.CATALOGUE else "custom"))
+                        t.legal("Crc.history", {"cfg": kind, "position": prev}, r, ref(name, m),
+                                f"sequence {list(seq[:i + 1])} on {_h(m)}: last result")
+
+
 def w_counter(case: dict, t: Tally) -> None:
     import itertools
 
@@ -866,7 +915,7 @@ def w_golden(case: dict, t: Tally) -> None:
 
 
 WORKERS = {"cbc": w_cbc, "sm4cbc": w_cbc, "ecb": w_ecb, "ctr": w_ctr, "xts": w_xts, "ccm": w_ccm, "wrap": w_wrap, "cmac": w_cmac,
-           "hash": w_hash, "hmac": w_hmac, "hkdf": w_hkdf, "crc": w_crc, "counter": w_counter, "keystore": w_keystore,
+           "hash": w_hash, "hmac": w_hmac, "hkdf": w_hkdf, "crc": w_crc, "crc-history": w_crc_history, "counter": w_counter, "keystore": w_keystore,
            "sb31": w_sb31, "badkeys": w_badkeys, "golden": w_golden}
 
 
@@ -926,6 +975,7 @@ def build_tasks(tier: str, seed: int) -> list:
     for alg in ("crc32", "crc32-mpeg", "crc16-xmodem"):
         T.append({"k": "crc", "alg": alg, "mpats": ["zeros", "ones", "counter", "seeded"], "maxlen": 64 if q else 300,
                   "pairs": not q, "big": BIG_LENS})
+    T.append({"k": "crc-history", "depth": 2 if q else 3})
     M = 1 << 32
     T.append({"k": "counter", "starts": [0, 1, 1 << 31, M - 17, M - 2, M - 1], "ctr_values": [None, 0, 1, 2, 16, M - 1, M],
               "ops": [None, 0, 1, 2, 16, M - 1, M], "depth": 2 if q else 3, "prefixes": ["zeros", "seeded"] if q else ["zeros", "ones", "seeded"],
